@@ -848,15 +848,41 @@ func (c *Ctx) pgTable0() *PGTable {
 	pt.Ctor = ctor
 	// the map placed in RenderFNs: find MakeMap in the ctor
 	var mm *ssa.MakeMap
+	var maps []*ssa.MakeMap
 	for _, b := range ctor.Blocks {
 		for _, in := range b.Instrs {
 			if m, ok := in.(*ssa.MakeMap); ok {
-				if mm != nil {
-					pt.Err = "constructor builds more than one map"
-					return pt
-				}
-				mm = m
+				maps = append(maps, m)
 			}
+		}
+	}
+	if len(maps) == 1 {
+		mm = maps[0]
+	} else if len(maps) > 1 {
+		// several maps: the render table is the one that is stored into a struct field or returned; the others
+		// are local literal maps it is filled from
+		for _, m := range maps {
+			if m.Referrers() == nil {
+				continue
+			}
+			for _, ref := range *m.Referrers() {
+				switch u := ref.(type) {
+				case *ssa.Store:
+					if _, isField := u.Addr.(*ssa.FieldAddr); isField && u.Val == ssa.Value(m) {
+						if mm != nil && mm != m {
+							pt.Err = "constructor stores more than one fresh map into the driver"
+							return pt
+						}
+						mm = m
+					}
+				case *ssa.Return:
+					mm = m
+				}
+			}
+		}
+		if mm == nil {
+			pt.Err = "constructor builds several maps and none of them is stored into the driver"
+			return pt
 		}
 	}
 	if mm == nil {
@@ -895,6 +921,7 @@ func (c *Ctx) pgTable0() *PGTable {
 					continue
 				}
 				okCopy := false
+				var localSrc *ssa.MakeMap
 				if ex, ok := x.Key.(*ssa.Extract); ok {
 					if nx, ok := ex.Tuple.(*ssa.Next); ok {
 						if rg, ok := nx.Iter.(*ssa.Range); ok {
@@ -903,8 +930,33 @@ func (c *Ctx) pgTable0() *PGTable {
 									okCopy = true
 								}
 							}
+							// a range copy of another fresh map of the constructor (a local literal of overrides)
+							if om, ok := c.resolve(rg.X, nil).(*ssa.MakeMap); ok && om != mm {
+								if vx, ok := x.Value.(*ssa.Extract); ok && vx.Tuple == nx && vx.Index == 2 && ex.Index == 1 {
+									localSrc = om
+								}
+							}
 						}
 					}
+				}
+				if localSrc != nil {
+					tmp := &Table{}
+					c.readContainer(localSrc, tmp)
+					if tmp.Err != "" || len(tmp.Entries) == 0 || c.hasComputedKeys(localSrc) {
+						pt.Err = "constructor copies a local map that cannot be read into the render table at " + c.instrPos(x) + ": " + tmp.Err
+						return pt
+					}
+					guardedL := false
+					for _, a := range c.domAtoms(b) {
+						if a.Kind == "call" && !a.Pos && strings.HasPrefix(a.Subj, "haskey:") && a.Val == c.key(x.Key, nil) {
+							guardedL = true
+						}
+					}
+					for _, e := range tmp.Entries {
+						pt.Overlay.Entries = append(pt.Overlay.Entries, e)
+						set(e, !guardedL)
+					}
+					continue
 				}
 				if !okCopy {
 					pt.Err = "constructor writes a non-constant key that is not a copy of Shared at " + c.instrPos(x)
